@@ -136,6 +136,20 @@ def handlePpf (fs : List (String × String)) : String := Id.run do
         else none
       return verdict agree bad (sts.length ≥ 3) s!"ppf-{min sts.length 4}" (if agree then "" else s!"reencoded={re == body},rest={rest.length},type={t.toNat}")
 
+/-- a join against a host at (or just below) its limit of concurrent state exchanges: mutual or nothing -/
+def handleBusy (fs : List (String × String)) : String :=
+  let limit := (getNat fs "limit").getD 0
+  let inflight := (getNat fs "inflight").getD 0
+  let ok := getD fs "join" "?" == "ok"
+  let host := getD fs "hostlists" "0" == "1"
+  let joiner := getD fs "joinerlists" "0" == "1"
+  let expectOk : Bool := decide (inflight + 1 < limit)   -- the request itself counts: refused when it is the 128th
+  let bad : Option String :=
+    if ok && !(host && joiner) then some s!"join-reported-success-but-not-mutual:host-lists-joiner={host},joiner-lists-host={joiner},in-flight={inflight}"
+    else if !ok && (host || joiner) then some s!"join-failed-but-somebody-changed:host={host},joiner={joiner}"
+    else none
+  verdict (ok == expectOk) bad true s!"busy-{if expectOk then "below" else "at"}-limit" (if ok == expectOk then "" else s!"model-join-ok={expectOk}")
+
 def handle (kind : String) (fs : List (String × String)) : String :=
   match kind with
   | "vp" => handleVp fs
@@ -144,6 +158,7 @@ def handle (kind : String) (fs : List (String × String)) : String :=
   | "cut" => handleOracle fs "cut"
   | "cap" => handleCap fs
   | "ppf" => handlePpf fs
+  | "busy" => handleBusy fs
   | "rrs" => Swim.Drv.Msgpack.handleRrs fs
   | _ => "PARSE kind"
 
